@@ -480,7 +480,7 @@ class Nor2(Logic):
         self.b = self.addIn("b", b)
         self.r = self.addOut("r", r)
 
-        self.mid = self.wire("Mid", a.getWidth())
+        self.mid = self.wire("Mid", r.getWidth())
 
         Or2(self, "Or", a, b, self.mid)
         Not(self, "Not", self.mid, r)
